@@ -239,6 +239,12 @@ StringDictionaryHTFC::StringDictionaryHTFC(IteratorDictString *it,
                         // The padding bits are enough...
                         codeSubstr = (codeSubstr << (TABLEBITSO - ptrSubstr));
                         ptrSubstr = TABLEBITSO;
+                      } else {
+                        // The next header begins in the next byte: the
+                        // padding bits are also part of the chunk
+                        codeSubstr = (codeSubstr << (8 - offset));
+                        ptrSubstr += (8 - offset);
+                        offset = 0;
                       }
                     }
                   }
